@@ -3,6 +3,7 @@ package e1cases
 
 import (
 	"fmt"
+	"os"
 	"time"
 
 	"verifmc/drv"
@@ -109,14 +110,14 @@ func MainWith(prop string, extra []*drv.Domain) {
 		qSymClosure = append(qSymClosure, kase{cfg: e1.Cfg{H: h, Symbolic: true, Complete: true, AllCtors: true}, mode: "closure"})
 	}
 	tSymClosure = append(tSymClosure, kase{cfg: e1.Cfg{H: 10, Symbolic: true, Complete: true, AllCtors: true}, mode: "closure"})
-	for h := 4; h <= 16; h += 2 {
+	for h := 4; h <= 18; h += 2 {
 		md := uint64(1) << 62
 		if h > 10 {
 			md = 1 << 10
 		}
 		qSymChain = append(qSymChain, kase{cfg: e1.Cfg{H: h, Symbolic: true}, mode: "chain", maxDist: md})
 	}
-	for h := 18; h <= 24; h += 2 {
+	for h := 20; h <= 24; h += 2 {
 		tSymChain = append(tSymChain, kase{cfg: e1.Cfg{H: h, Symbolic: true}, mode: "chain", maxDist: 1 << 20})
 	}
 	d := func(name, desc, tier string, ks []kase) {
@@ -134,8 +135,54 @@ func MainWith(prop string, extra []*drv.Domain) {
 	}
 	d("sym-closure", "BFS closure, symbolic Merkle algebra, complete alphabet, h=4,6,8", "", qSymClosure)
 	d("sym-closure-h10", "BFS closure, symbolic, complete alphabet, h=10", "t", tSymClosure)
-	d("sym-chain", "whole key life, symbolic, every even h 4..16: every index, lock-step walkers, boundary jumps", "", qSymChain)
-	d("sym-chain-h18-24", "whole key life, symbolic, h=18..24", "t", tSymChain)
+	d("sym-chain", "whole key life, symbolic, every even h 4..18: every index, lock-step walkers, boundary jumps", "", qSymChain)
+	d("sym-chain-h20-24", "whole key life, symbolic, h=20..24", "t", tSymChain)
+	if prop == "C01" || prop == "C02" {
+		type seg struct {
+			h        int
+			from, to uint64
+			budget   time.Duration
+		}
+		var segs []seg
+		add := func(h, parts int, budget time.Duration) {
+			n := uint64(1) << uint(h)
+			for k := 0; k < parts; k++ {
+				segs = append(segs, seg{h, n / uint64(parts) * uint64(k), n / uint64(parts) * uint64(k+1), budget})
+			}
+		}
+		add(26, 4, 0)
+		add(28, 16, 0)
+		h30 := 25 * time.Minute
+		if os.Getenv("VERIF_H30") == "full" {
+			h30 = 0
+		}
+		add(30, 16, h30)
+		ck.Domains = append(ck.Domains, &drv.Domain{Name: "sym-lean-h26-30", Tier: "t", Size: int64(len(segs)), Chunk: 1,
+			Desc:          "symbolic whole-life walks at h=26, 28, 30 split into index segments (one forward jump to the segment start on a fresh key, then Sign at every index): index field and exact sibling identities in every signature; h=30 under a 25 min budget per segment (VERIF_H30=full lifts it)",
+			NotExhaustive: "",
+			Run: func(c *drv.Ctx, lo, hi int64) {
+				for i := lo; i < hi; i++ {
+					c.At(i)
+					g := segs[i]
+					res := e1.Lean(e1.Cfg{H: g.h, Hf: 1, SeedKind: 0, VSeed: c.Seed}, g.from, g.to, g.budget)
+					c.Eval(res.Transitions)
+					c.Count("states", res.States)
+					c.Count("transitions", res.Transitions)
+					c.Count("signatures", res.Signs)
+					c.Nontrivial(res.Signs)
+					if res.CappedAt != 0 {
+						c.Cap(fmt.Sprintf("h=%d segment [%d,%d): time budget reached at index %d", g.h, g.from, g.to, res.CappedAt))
+					}
+					for _, f := range res.Fails {
+						if own[f.Prop] {
+							c.Fail(i, f.Prop+":"+f.Key, f.Details)
+						}
+					}
+					c.Outcome(fmt.Sprintf("h=%d", g.h))
+					c.Sample(map[string]any{"height": g.h, "from": g.from, "to": g.to, "signatures": res.Signs})
+				}
+			}})
+	}
 	ck.Domains = append(ck.Domains, extra...)
 	switch prop {
 	case "C01":
